@@ -38,16 +38,30 @@ def step_coq(op, st):
     return "(%s, %s)" % (out, res_coq(st["res"]))
 
 
+def effective_ops(case, obs):
+    """["R", k] (store the cached page object again) is OSet k v d with the entry's own value and dirty flag when
+    k is resident, and a lookup that misses otherwise"""
+    out, prev = [], []
+    for op, st in zip(case["ops"], obs["steps"]):
+        if op[0] == "R":
+            hit = [e for e in prev if e[0] == op[1]]
+            op = ["S", op[1], hit[0][1], hit[0][2]] if hit else ["G", op[1]]
+        out.append(op)
+        prev = st["res"]
+    return out
+
+
 def case_coq(case, obs):
+    ops = effective_ops(case, obs)
     return "(%d%%nat, %s, %s)" % (
-        case["cap"], cq_list(op_coq(o) for o in case["ops"]),
-        cq_list(step_coq(o, s) for o, s in zip(case["ops"], obs["steps"])))
+        case["cap"], cq_list(op_coq(o) for o in ops),
+        cq_list(step_coq(o, s) for o, s in zip(ops, obs["steps"])))
 
 
 def alphabet(keys):
     ops = []
     for k in keys:
-        ops += [["S", k, None, 0], ["S", k, None, 1], ["G", k], ["D", k], ["C", k]]
+        ops += [["S", k, None, 0], ["S", k, None, 1], ["G", k], ["D", k], ["C", k], ["R", k]]
     return ops
 
 
@@ -88,8 +102,10 @@ def generate(rng, tier):
             k = rng.randrange(1, nkeys + 1)
             if r < 0.45:
                 ops.append(["S", k, None, 1 if rng.random() < pdirty else 0])
-            elif r < 0.75:
+            elif r < 0.68:
                 ops.append(["G", k])
+            elif r < 0.75:
+                ops.append(["R", k])
             elif r < 0.87:
                 ops.append(["D", k])
             else:
